@@ -81,8 +81,21 @@ class RecListener(object):
     def circuit_launched(self, c): self._n("launched", c.id)
     def circuit_extend(self, c, router): self._n("extend", c.id, HEX2NAME.get(router.id_hex[1:], "?"))
     def circuit_built(self, c): self._n("built", c.id)
-    def circuit_closed(self, c, **kw): self._n("closed", c.id, self._flags(kw))
-    def circuit_failed(self, c, **kw): self._n("failed", c.id, self._flags(kw))
+    def _done_with(self, c):
+        """a listener that is done with a circuit once it is gone lets go of it from inside the notification -
+        only when no other application listener comes after it in the circuit's list (removing oneself while the
+        circuit iterates its listeners makes it skip the next one; that is not what is being examined here)"""
+        ls = list(c.listeners)
+        if self in ls and not any(isinstance(x, RecListener) for x in ls[ls.index(self) + 1:]):
+            c.unlisten(self)
+
+    def circuit_closed(self, c, **kw):
+        self._n("closed", c.id, self._flags(kw))
+        self._done_with(c)
+
+    def circuit_failed(self, c, **kw):
+        self._n("failed", c.id, self._flags(kw))
+        self._done_with(c)
     def stream_new(self, s): self._n("snew", s.id)
     def stream_succeeded(self, s): self._n("ssucceeded", s.id)
     def stream_attach(self, s, circuit): self._n("sattach", s.id)
